@@ -1,6 +1,8 @@
 import RgVerif.Lemmas.HirStrip
 import RgVerif.Lemmas.HirNonMatching
 import RgVerif.Lemmas.HirConfig
+import RgVerif.Lemmas.HirEnds
+import RgVerif.Lemmas.HirLitFree
 /-
 C11 — line-mode matcher promises hold for every accepted pattern over all lines.
 
@@ -135,6 +137,17 @@ theorem fastFind_never_skips (lk : LookFn) (h : Hir) (L L' : List Lit) (t : Nat)
   intro i h1 h2
   exact this i (by omega) h2
 
+/-- `lits_no_term`: an expression that cannot consume the byte `b` (the checker `noByte`, which
+`strip` establishes) yields only literals free of `b` — an occurrence of an extracted literal lies
+inside one line. -/
+theorem lits_no_term (h : Hir) (b : Nat) (hb : b < 128) (hn : noByte b h = true) (L : List Lit)
+    (hL : (extract h).seq = some L) : litsNoByte b L = true := by
+  unfold litsNoByte
+  rw [List.all_eq_true]
+  intro l hl
+  have := extract_free hb h hn L hL l hl
+  simpa using this
+
 /-- What is assumed of the two external functions, each validated on every run by the harness:
 the optimiser keeps the infinite sequence infinite and its output covers its input (certificate
 `covers`, checked on the real output), and its literals are free of the terminator bytes
@@ -146,6 +159,9 @@ structure OptimizeCert (optimize : Seq → Seq) (h : Hir) (termBytes : List Nat)
 
 /-- Contract of the regex engine behind `shortest_match` (validated, not proven): the reported
 offset is the end of a match whose start is minimal; no answer means no match. -/
+/- `hnorm` in `C11` below: regex-syntax's smart constructors add no matches (external; the harness
+checks the stronger `noByte` certificate on their actual output, see `noByte_checker_sound`). -/
+
 structure EngineSpec (lk : LookFn) (h : Hir) (shortest : Bytes → Option Nat) : Prop where
   some_ : ∀ hay i, shortest hay = some i → ∃ s, Matches lk h hay s i ∧ ∀ s' e', Matches lk h hay s' e' → s ≤ s'
   none_ : ∀ hay, shortest hay = none → ∀ s e, ¬ Matches lk h hay s e
@@ -157,8 +173,9 @@ structure EngineSpec (lk : LookFn) (h : Hir) (shortest : Bytes → Option Nat) :
 (c) `find_candidate_line` answers, and no terminator byte lies between the end of the match and the
     reported offset (so the reported line is the line of the match or an earlier one). -/
 theorem C11 (lk : LookFn) (cfg : Config) (pats : List Bytes) (translated : Hir) (accelerated : Bool)
-    (optimize : Seq → Seq) (shortest : Bytes → Option Nat) (m : MatcherM)
-    (hb : cfg.build pats translated accelerated optimize = .ok m)
+    (optimize : Seq → Seq) (norm : Hir → Hir) (shortest : Bytes → Option Nat) (m : MatcherM)
+    (hb : cfg.build pats translated accelerated optimize norm = .ok m)
+    (hnorm : ∀ h hay s e, Matches lk (norm h) hay s e → Matches lk h hay s e)
     (termBytes : List Nat) (htb : termBytes = (cfg.lineTerm.map LineTerm.bytes).getD [])
     (hopt : OptimizeCert optimize m.hir termBytes)
     (heng : EngineSpec lk m.hir shortest)
@@ -173,7 +190,7 @@ theorem C11 (lk : LookFn) (cfg : Config) (pats : List Bytes) (translated : Hir) 
     simp only [Except.ok.injEq] at hb
     subst hb
     simp only at hm hopt heng ⊢
-    have hm0 : Matches lk h0 hay s e := matches_wrap cfg hm
+    have hm0 : Matches lk h0 hay s e := matches_wrap cfg (hnorm _ _ _ _ hm)
     -- (a)
     have ha : ∀ t ∈ termBytes, t ∉ slice hay s e := by
       intro t ht
@@ -203,7 +220,7 @@ theorem C11 (lk : LookFn) (cfg : Config) (pats : List Bytes) (translated : Hir) 
             · cases hfl
               unfold finishUntagged at hfin
               split at hfin
-              · cases hex : (extract (cfg.wrap h0)).seq with
+              · cases hex : (extract (norm (cfg.wrap h0))).seq with
                 | none => rw [hex, hopt.inf] at hfin; cases hfin
                 | some L =>
                   rw [hex] at hfin
@@ -240,7 +257,7 @@ theorem C11 (lk : LookFn) (cfg : Config) (pats : List Bytes) (translated : Hir) 
           -- the confirmed match itself is free of the terminator
           have hfree : NoByteIn t hay s1 i := by
             rw [noByteIn_iff]
-            have hm1' : Matches lk h0 hay s1 i := matches_wrap cfg hm1
+            have hm1' : Matches lk h0 hay s1 i := matches_wrap cfg (hnorm _ _ _ _ hm1)
             subst htb
             cases hlt : cfg.lineTerm with
             | none => simp [hlt] at ht
@@ -250,6 +267,15 @@ theorem C11 (lk : LookFn) (cfg : Config) (pats : List Bytes) (translated : Hir) 
                 (fun h' hs hm' => strip_sound_lineterm lk translated h' lt hay s1 i hs hm') t ht
           intro j h1 h2
           exact hfree j (by omega) h2
+
+/-! ### the evaluator the harness compares the real engine with -/
+
+/-- The executable `ends` (run by the driver against regex-automata on every generated
+(HIR, haystack)) enumerates exactly the ends of the denotation's matches — so that comparison is a
+comparison with `Matches` itself. -/
+theorem ends_iff (lk : LookFn) (h : Hir) (hay : Bytes) (s e : Nat) :
+    e ∈ ends lk h hay s ↔ Matches lk h hay s e :=
+  Rx.ends_iff h hay s e
 
 /-! ### non-vacuity -/
 
@@ -265,7 +291,7 @@ example (lk : LookFn) : Matches lk (.concat (.cons (.classB [(97, 97)]) (.cons (
 example :
     (({ lineTerm := some (.byte 10), multiLine := true } : Config).build [[91, 97, 92, 110, 93, 98, 43]]
         (.concat (.cons (.classB [(10, 10), (97, 97)]) (.cons (.rep 1 none true (.lit [98])) .nil)))
-        false id).toOption.map (fun m => (m.fastLits, m.lineTerm))
+        false id id).toOption.map (fun m => (m.fastLits, m.lineTerm))
       = some (some [⟨[97, 98], false⟩], some (.byte 10)) := by rfl
 
 /-- `a\nb` is rejected. -/
